@@ -36,6 +36,7 @@ SEARCH=engine_core/src/engine/search.rs
 TABLE=engine_core/src/engine/table.rs
 MAGIC=board/src/board/precalculated/magic.rs
 CONSTS=board/src/board/constants.rs
+PGN=pgn/src/reader.rs
 
 # name | expected (FAIL/PASS) | file | sed expression
 MUTATIONS=(
@@ -248,6 +249,30 @@ MUTATIONS=(
 "fen-writer-clocks-swapped|FAIL|$BOARD|s/result.push_str(&bitboard.halfmove_clock.to_string());/result.push_str(\&bitboard.fullmove_clock.to_string());/"
 "fen-writer-side-swapped|FAIL|$BOARD|s/result.push(if bitboard.is_white_turn() { 'w' } else { 'b' });/result.push(if bitboard.is_white_turn() { 'b' } else { 'w' });/"
 "fen-writer-HARMLESS-rename-local|PASS|$BOARD|s/consecutive_empty/run/g"
+# ---- PGN reader (C17; module Pgn, monadic mode; Props/Translated/Pgn{Buffer,Bytes,Loops,Tags,Moves,Iter}.lean)
+"pgn-ensure-ge-to-gt|FAIL|$PGN|s/if self.current_byte >= self.current_buffer.len() {/if self.current_byte > self.current_buffer.len() {/"
+"pgn-short-read-sets-eof|FAIL|$PGN|s/self.current_buffer.resize(bytes_read, 0);/self.current_buffer.resize(bytes_read, 0); self.eof_reached = true;/"
+"pgn-short-read-no-resize|FAIL|$PGN|s/self.current_buffer.resize(bytes_read, 0);//"
+"pgn-refill-keeps-current-byte|FAIL|$PGN|s/^            self.current_byte = 0;$//"
+"pgn-increment-no-position|FAIL|$PGN|s/^        self.position += 1;$//"
+"pgn-consume-ne|FAIL|$PGN|s/if actual == expected {/if actual != expected {/"
+"pgn-skip-spaces-skips-newlines|FAIL|$PGN|/fn skip_spaces/,/^    }/s/b' '/b'\\\\n'/"
+"pgn-blank-lines-and-spaces-one-peek|FAIL|$PGN|s/while self.peek_byte()? == b'\\\\n' || self.peek_byte()? == b' ' {/while self.peek_byte()? == b'\\\\n' {/"
+"pgn-read-until-no-skip|FAIL|$PGN|/fn read_until/,/^    }/s/self.skip_byte()?;//"
+"pgn-read-token-space-only|FAIL|$PGN|s/if byte == b' ' || byte == b'\\\\n' {/if byte == b' ' {/"
+"pgn-read-token-no-increment|FAIL|$PGN|/fn read_token/,/^    }/s/self.increment_byte();//"
+"pgn-tag-value-propagates-before-quote|FAIL|$PGN|s/let value = self.read_until(b'\"');/let value = self.read_until(b'\"')?;/;s/^        value$/        Ok(value)/"
+"pgn-tag-pairs-insert-swapped|FAIL|$PGN|s/result.insert(k, v);/result.insert(v, k);/"
+"pgn-result-token-no-draw|FAIL|$PGN|s@\"\*\" | \"1-0\" | \"0-1\" | \"1/2-1/2\"@\"*\" | \"1-0\" | \"0-1\"@"
+"pgn-move-number-test-comma|FAIL|$PGN|s/if token.contains('.') {/if token.contains(',') {/"
+"pgn-moves-closed-is-error|FAIL|$PGN|s/Ok(()) | Err(ReadingFromClosedRead) => Ok(result),/Ok(()) => Ok(result),/"
+"pgn-next-closed-is-item|FAIL|$PGN|s/Err(ReadingFromClosedRead) => { None }/Err(ReadingFromClosedRead) => { Some(Err(ReadingFromClosedRead)) }/"
+"pgn-with-chunk-size-cursor-zero|FAIL|$PGN|s/current_buffer: vec!\[0; chunk_size\], current_byte: chunk_size,/current_buffer: vec![0; chunk_size], current_byte: 0,/"
+"pgn-panic-on-full-chunk|FAIL|$PGN|s/Ok(bytes_read) if bytes_read > self.chunk_size => {/Ok(bytes_read) if bytes_read >= self.chunk_size => {/"
+"pgn-position-wraps|FAIL|$PGN|s/^        self.position += 1;$/        self.position = self.position.wrapping_add(1);/"
+"pgn-UNSUPPORTED-nested-loop|FAIL|$PGN|s/^            result.push(mv);$/            result.push(mv); while self.ensure_buffer() { break; }/"
+"pgn-HARMLESS-rename-local|PASS|$PGN|s/cur_byte/cb/g"
+"pgn-HARMLESS-default-chunk|PASS|$PGN|s/Self::with_chunk_size(reader, 8192)/Self::with_chunk_size(reader, 4096)/"
 )
 
 ok=0; bad=0
